@@ -365,7 +365,7 @@ Qed.
 
 Lemma J_glob fuel loc cmd arg s : J s (fst (ec_glob rvalid rfind exec fuel loc cmd arg s)).
 Proof.
-  unfold ec_glob.
+  unfold ec_glob. destruct (GDEPMAX <=? xgdep s)%nat; [apply T_J; same|].
   set (loc' := match loc, xgdep s with [], O => [37%N] | _, _ => loc end).
   reg loc' s. destruct (_ || _); [apply T_J, R|].
   destruct (re_read arg) as [pat body].
